@@ -1,21 +1,20 @@
 CONSTANT N = 3
-CONSTANT Kinds = {"exp", "cmd", "group"}
+CONSTANT Kinds = {"exp", "group"}
 CONSTANT Modes = {"default"}
 CONSTANT FixedD1 = TRUE
 CONSTANT MaxJobs = 2
-CONSTANT StopModes = {FALSE, TRUE}
+CONSTANT StopModes = {FALSE}
 CONSTANT ExitCodes = {0, 1}
-CONSTANT LaunchFail = TRUE
+CONSTANT LaunchFail = FALSE
 CONSTANT SecondReaper = FALSE
-CONSTANT AllowAbort = FALSE
+CONSTANT AllowAbort = TRUE
 SPECIFICATION Spec
 INVARIANT C01
-INVARIANT C02
 INVARIANT C03
 INVARIANT C04
 INVARIANT C09
+INVARIANT C16
+INVARIANT C16Rows
 INVARIANT PipeMatchesList
-INVARIANT SlotStack
-INVARIANT WaitingCounts
 PROPERTY Terminates
 CHECK_DEADLOCK TRUE
